@@ -33,7 +33,7 @@ type decision struct {
 	ctx      *Ctx
 	g        *Term
 	D        *ssa.Phi    // final delta (dispatched on)
-	D0       *ssa.Phi    // band φ
+	D0       ssa.Value   // band value: a φ of the scan body, or the result of a decision helper
 	chain    []ssa.Value // D, …, D0
 	sd, su   ssa.CallInstruction
 	noop     ssa.CallInstruction
@@ -121,17 +121,25 @@ func (ck *Check) findDecision(rule string) *decision {
 	d.chain = []ssa.Value{cur}
 	for {
 		peeled := false
-		var cands []*ssa.Phi
+		var cands []ssa.Value
 		var collect func(ph *ssa.Phi, depth int)
-		seenC := map[*ssa.Phi]bool{}
+		seenC := map[ssa.Value]bool{}
 		collect = func(ph *ssa.Phi, depth int) {
 			for _, e := range ph.Edges {
-				if p2, ok := e.(*ssa.Phi); ok && !seenC[p2] {
-					seenC[p2] = true
-					cands = append(cands, p2)
+				if seenC[e] {
+					continue
+				}
+				switch x := e.(type) {
+				case *ssa.Phi:
+					seenC[e] = true
+					cands = append(cands, e)
 					if depth < 2 {
-						collect(p2, depth+1)
+						collect(x, depth+1)
 					}
+				case *ssa.Extract, *ssa.Call:
+					// the decided delta may be the result of a decision helper
+					seenC[e] = true
+					cands = append(cands, e)
 				}
 			}
 		}
@@ -155,7 +163,7 @@ func (ck *Check) findDecision(rule string) *decision {
 							}
 							return false
 						}
-						if p2, ok := e.(*ssa.Phi); ok && depth < 2 && p2 != prev {
+						if p2, ok := e.(*ssa.Phi); ok && depth < 2 && ssa.Value(p2) != prev {
 							if !okShape(p2, depth+1) {
 								return false
 							}
@@ -178,23 +186,116 @@ func (ck *Check) findDecision(rule string) *decision {
 							break
 						}
 					}
-					if dom == prev.Block() {
+					if pi, ok := prev.(ssa.Instruction); ok && dom == pi.Block() {
 						break
 					}
 				}
 				d.override = append(d.override, overrideDef{phi: cur, guard: d.ctx.BlockPC(rb), cond: cond})
 			}
-			cur = prev
-			d.chain = append(d.chain, cur)
+			d.chain = append(d.chain, prev)
 			peeled = true
+			if pp, ok := prev.(*ssa.Phi); ok {
+				cur = pp
+			} else {
+				d.D0 = prev
+			}
 			break
 		}
-		if !peeled {
+		if !peeled || d.D0 != nil {
 			break
 		}
 	}
-	d.D0 = cur
+	if d.D0 == nil {
+		d.D0 = cur
+	}
 	return d
+}
+
+// valueCase is one way a value can be defined: under guard (a full path condition in the scan
+// body's vocabulary) it equals term.
+type valueCase struct {
+	guard *Formula
+	term  *Term
+	pos   ssa.Instruction
+}
+
+// valueCases expands a value into its defining cases: the incoming edges of a (non loop-carried)
+// φ, and the return sites of a loop-free repo helper whose result it is (the helper's parameters
+// bound to the call's arguments, its path conditions conjoined with the call site's).
+func (ck *Check) valueCases(ctx *Ctx, prefix *Formula, v ssa.Value, depth int) []valueCase {
+	in, _ := v.(ssa.Instruction)
+	single := func() []valueCase {
+		pc := prefix
+		if in != nil && in.Block() != nil {
+			pc = And(prefix, ctx.PC(in))
+		}
+		return []valueCase{{guard: pc, term: ctx.Term(v), pos: in}}
+	}
+	if depth > 3 {
+		return single()
+	}
+	switch x := v.(type) {
+	case *ssa.Phi:
+		if ctx.loopCarried(x) {
+			return single()
+		}
+		var out []valueCase
+		b := x.Block()
+		for i, e := range x.Edges {
+			eg := And(prefix, ctx.edgePC(b.Preds[i], b))
+			switch e.(type) {
+			case *ssa.Phi:
+				// a nested φ is already guarded by its own block; refine through it
+				for _, c := range ck.valueCases(ctx, prefix, e, depth+1) {
+					out = append(out, valueCase{guard: And(c.guard, eg), term: c.term, pos: c.pos})
+				}
+			default:
+				out = append(out, valueCase{guard: eg, term: ctx.Term(e), pos: x})
+			}
+		}
+		return out
+	case *ssa.Extract:
+		if call, ok := x.Tuple.(*ssa.Call); ok {
+			if cs := ck.helperReturnCases(ctx, prefix, call, x.Index, depth); cs != nil {
+				return cs
+			}
+		}
+	case *ssa.Call:
+		if cs := ck.helperReturnCases(ctx, prefix, x, 0, depth); cs != nil {
+			return cs
+		}
+	}
+	return single()
+}
+
+func (ck *Check) helperReturnCases(ctx *Ctx, prefix *Formula, call *ssa.Call, idx, depth int) []valueCase {
+	h := call.Common().StaticCallee()
+	_, anchors := ck.actionAnchors()
+	if h == nil || !ck.P.inRepo(h) || h.Blocks == nil || anchors[h] || h == ck.A.CalcDelta || h == ck.A.CalcPercent || !ck.P.readOnly(h) {
+		return nil
+	}
+	args := make([]*Term, len(call.Common().Args))
+	for i, av := range call.Common().Args {
+		args[i] = ctx.Term(av)
+	}
+	ch := ctx.child(h, call, args)
+	ch.depth = 0
+	pc := And(prefix, ctx.PC(call))
+	var out []valueCase
+	for _, b := range h.Blocks {
+		r, ok := b.Instrs[len(b.Instrs)-1].(*ssa.Return)
+		if !ok || idx >= len(r.Results) {
+			continue
+		}
+		rpc := And(pc, ch.BlockPC(b))
+		for _, c := range ck.valueCases(ch, pc, r.Results[idx], depth+1) {
+			if c.pos == nil {
+				c.pos = r
+			}
+			out = append(out, valueCase{guard: And(c.guard, rpc), term: c.term, pos: c.pos})
+		}
+	}
+	return out
 }
 
 func checkC06(ck *Check) {
@@ -218,15 +319,17 @@ func checkC06(ck *Check) {
 	if pctCall != nil {
 		e0 := &Term{Kind: "extract", Name: "0", Args: []*Term{pctCall}}
 		e1 := &Term{Kind: "extract", Name: "1", Args: []*Term{pctCall}}
-		for _, b := range fn.Blocks {
-			for _, in := range b.Instrs {
-				if c, ok := in.(*ssa.Call); ok {
-					t := ctx.Term(c)
-					if t.Kind == "call" && t.Name == "math.Max" && len(t.Args) == 2 {
-						ks := map[string]bool{t.Args[0].Key(): true, t.Args[1].Key(): true}
-						if ks[e0.Key()] && ks[e1.Key()] {
-							u = t
-						}
+		// the scan body, extended by the helpers it hands the two percentages to
+		for _, bc := range ck.bodyCalls(fn, func(ci ssa.CallInstruction) bool {
+			f := ci.Common().StaticCallee()
+			return f != nil && pkgPathOfFn(f) == "math" && f.Name() == "Max"
+		}) {
+			if c, ok := bc.Call.(*ssa.Call); ok {
+				t := bc.Ctx.Term(c)
+				if t.Kind == "call" && t.Name == "math.Max" && len(t.Args) == 2 {
+					ks := map[string]bool{t.Args[0].Key(): true, t.Args[1].Key(): true}
+					if ks[e0.Key()] && ks[e1.Key()] {
+						u = t
 					}
 				}
 			}
@@ -256,16 +359,17 @@ func checkC06(ck *Check) {
 
 	// R1 band table
 	{
-		ph := d.D0
-		b := ph.Block()
-		M := quot(ctx.BlockPC(b))
+		ph := d.D0.(ssa.Instruction)
+		M := quot(ctx.PC(ph))
 		fast := &Term{Kind: "unop", Name: "-", Args: []*Term{ck.optTerm(g, "fast_node_removal_rate")}}
 		slow := &Term{Kind: "unop", Name: "-", Args: []*Term{ck.optTerm(g, "slow_node_removal_rate")}}
 		conds := map[string]*Formula{"fast": FFalse, "slow": FFalse, "calc": FFalse, "zero": FFalse}
 		okShape := true
-		for i, e := range ph.Edges {
-			t := ctx.Term(e)
-			E := quot(ctx.edgePC(b.Preds[i], b))
+		cases := ck.valueCases(ctx, FTrue, d.D0, 0)
+		ck.Stats["C06.R1 delta cases"] = len(cases)
+		for i, vc := range cases {
+			t := vc.term
+			E := quot(vc.guard)
 			switch {
 			case t.Key() == fast.Key():
 				conds["fast"] = Or(conds["fast"], E)
@@ -320,7 +424,8 @@ func checkC06(ck *Check) {
 		}
 		ck.floor("C06.R2", "monotone overrides recognised", len(d.override), 2)
 		// D0 must be the only other definition: the chain ends at the band phi, which must have ≥ 4 edges
-		ck.cond(len(d.D0.Edges) >= 4, "C06.R2", "scan/delta-chain", ck.P.instrPos(d.D0), funcID(fn), "below the overrides the delta is the band φ (no other definition)", fmt.Sprintf("%d incoming values", len(d.D0.Edges)), "the delta is redefined by something that is neither a band nor a max(d,1) override")
+		nCases := len(ck.valueCases(ctx, FTrue, d.D0, 0))
+		ck.cond(nCases >= 4, "C06.R2", "scan/delta-chain", ck.P.instrPos(d.D0.(ssa.Instruction)), funcID(fn), "below the overrides the delta is the band value (a φ or a decision helper's result with the four band cases; no other definition)", fmt.Sprintf("%d defining cases", nCases), "the delta is redefined by something that is neither a band nor a max(d,1) override")
 	}
 
 	// R3 dispatch
